@@ -229,7 +229,8 @@ class FakeS3:
         self.log = log
         self.director = director
         self.lock = threading.Lock()
-        self.objects = {}  # (bucket, key) -> bytes
+        self.objects = {}  # (bucket, key) -> bytes  (the current version)
+        self.versions = {}  # (bucket, key) -> {version id: bytes}  (older versions that can be asked for by VersionId)
         self.uploads = {}  # upload_id -> dict
         self.labels = {}  # (bucket, key) -> transfer label
         self.body_read_sizes = list(body_read_sizes)
@@ -397,6 +398,11 @@ class FakeS3:
         self.director.note_raised(f, key, phase, **extra)
         if kind == 'client4xx':
             raise S3Error(403, 'AccessDenied', f['tag'])
+        if kind.startswith('code:'):
+            # a specific service error code (and status), e.g. code:NoSuchUpload:404 - the library must not give any of them a
+            # meaning of its own
+            _, code, status = kind.split(':')
+            raise S3Error(int(status), code, f['tag'])
         if kind == 'retry500':
             rec['force_retry'] = True
             raise S3Error(500, 'InternalError', f['tag'])
@@ -530,10 +536,21 @@ class FakeS3:
             sb, sk = src['Bucket'], src['Key']
         else:
             sb, _, sk = src.lstrip('/').partition('/')
-        data = self.objects.get((sb, sk))
+        vid = None
+        if isinstance(src, dict):
+            vid = src.get('VersionId')
+        elif '?versionId=' in sk:
+            sk, _, vid = sk.partition('?versionId=')
+        data = self._object(sb, sk, vid)
         if data is None:
             raise S3Error(404, 'NoSuchKey', sk)
         return data
+
+    def _object(self, bucket, key, version_id=None):
+        """The bytes of an object: the current version, or the one named by VersionId."""
+        if version_id is not None:
+            return self.versions.get((bucket, key), {}).get(version_id)
+        return self.objects.get((bucket, key))
 
     def _apply(self, op, rec, request, body, akey):
         p = rec['params']
@@ -545,7 +562,7 @@ class FakeS3:
                 hdrs['ETag'] = etag_of(body)
                 return self._empty(request, 200, hdrs)
             if op == 'HeadObject':
-                data = self.objects.get((p['Bucket'], p['Key']))
+                data = self._object(p['Bucket'], p['Key'], p.get('VersionId'))
                 if data is None:
                     raise S3Error(404, 'NoSuchKey', p['Key'])
                 return self._empty(request, 200, {'content-length': str(len(data)), 'ETag': etag_of(data)})
@@ -647,7 +664,7 @@ class FakeS3:
 
     def _get_object(self, rec, request, akey):
         p = rec['params']
-        data = self.objects.get((p['Bucket'], p['Key']))
+        data = self._object(p['Bucket'], p['Key'], p.get('VersionId'))
         if data is None:
             raise S3Error(404, 'NoSuchKey', p['Key'])
         rng = p.get('Range')
